@@ -39,7 +39,7 @@ PROP = dict(
         "which baseapp rolls back together with the transfer module's credit: modelled by `recv`; the harness runs credit + callback on one cache branch with recover and checks nothing remains",
         "the conversion branch (ctx.CacheContext, written only when ConvertCoin returns no error) is the code's own; that a dropped branch leaves no trace in bank or EVM state is cosmos-sdk store behaviour, "
         "validated by comparing all observed balances and, for guarded packets, the complete bank dump",
-        "the recipient has no vesting lock on the standard coin (the code compares SpendableCoins, the model the balance)",
+        "the code compares SpendableCoins with the threshold, the model the balance: the two coincide because this app registers no vesting account type (x/auth/vesting is not wired in; storing a DelayedVestingAccount through the account keeper fails with `does not have a registered interface`), so no account can hold locked coins",
         "GetStandardDenom succeeds (set at genesis); packet data unmarshals (the transfer module has decoded it before the callback runs); the amount is positive (ICS-20 validation)",
         "MintingEnabled inside ConvertCoin (erc20 enabled, recipient not a blocked address) and `contract account has code` are oracle booleans recorded per packet (C14 / C04 own them); "
         "the token-pair registry lookup is an oracle (C15 owns it)",
